@@ -33,6 +33,12 @@ FAULTS = {
     'compare-mismatch': '1 < "s"',
     'call-non-function': 'base.x(1)',
     'bad-copy-type': 'base{x = "s"}',
+    # faults whose blamed operand is the *result of a call* of a function defined in another statement
+    'cast-of-call-result': 'int(mkstr(1))',
+    'add-call-result': '1 + mkstr(2)',
+    'not-of-call-result': 'not mkstr(3)',
+    'and-of-call-result': 'mkstr(4) && true',
+    'copy-field-from-call-result': 'base{x = mkstr(5)}',
 }
 SLOTS = {
     'direct': '{F}',
@@ -42,7 +48,7 @@ SLOTS = {
     'select-arm': 'select ("w", 0) => {\n    w = {F},\n}',
     'binary-right': '1 +\n    ({F})',
 }
-PRELUDE = 'let base = {\n    x = 1,\n    y = [1, 2, 3],\n};\nlet ident = func (p) =>\n    p;\n'
+PRELUDE = 'let base = {\n    x = 1,\n    y = [1, 2, 3],\n};\nlet ident = func (p) =>\n    p;\nlet mkstr = func (p) =>\n    "zz";\n'
 EXTRA = 'let pad1 = 1;\nlet pad2 = {\n    q = 2,\n};\n'
 
 
